@@ -34,6 +34,9 @@ CLAIMS = {
  "C17": dict(ref="§4 C17",
    text="Proof over the reals of: sexagesimal field ranges, sign, format/parse round trip to half a unit of the last digit (mod 360 for RA), non-finite placeholder (dec2dms, dec2hms, dec2dec, ra2dec); gcd symmetric, in [0,180], zero iff same point, haversine argument = |v1-v2|^2/4; bear = degrees(arctan2) of the standard PA numerator/denominator, East positive; translate lands at distance r with the rotated z-component. Not decided: triangle inequality, 1e-9 float agreement (a known finding is reported from the native cross-check).",
    note="floats as reals; sin/cos via Pythagoras+addition formulas only; arcsin/arctan2/sqrt by defining axioms; str.format rounding contract"),
+ "C19": dict(ref="§4 C19",
+   text="Proof (all inputs): regroup_dbscan embeds each source as the unit vector of its (ra, dec), passes the n x 3 array to DBSCAN(eps, min_samples=1) unchanged; squared chord = 4 x haversine argument (chord = 2 sin(sep/2), monotone), both callers convert the linking length theta to 2 sin(theta/2); resize(ratio=1) is the identity, ratio>=1 never shrinks, and catalogues without / with NaN psf columns raise nothing. Bounded stand-in (labelled, not counted as proved): grouping + flux-ordered relabelling executed symbolically for 3-source catalogues under all 5 label patterns; greedy regroup only natively.",
+   note="sklearn DBSCAN(min_samples=1) = connected components at distance <= eps assumed (gives chain-connectedness and permutation invariance); grouping/relabelling bounded to 3 sources; regroup_vectorized not under contract"),
  "C20": dict(ref="§4 C20",
    text="Proof: every path of load_image_band (real AST) satisfies validation, tiling (first/last/consecutive/in-range), data-selection and header-shift postconditions for all rows/bands/NAXIS/BSCALE/compressed; integers unbounded.",
    note="astropy.io.fits getheader/open/section contracts and fits_tools.expand contract assumed; float arithmetic real except inside int() (relative error model)"),
